@@ -62,8 +62,14 @@ def tableSimNonFinite (sym : Bool) (salt a b : Nat) : Float32 :=
   else if k = 7 then Float32.ofBits 0x7fc00000
   else Float32.ofNat k / 8
 
+/-- probability-like scores on a tiny scale: `k / 2^40` (about `1e-12 … 6e-11`, exact in f32) -/
+def tableSimTiny (sym : Bool) (salt a b : Nat) : Float32 :=
+  Float32.ofNat (if sym then ((a + b) * 13 + a * b * 7 + salt) % 64 else (a * 31 + b * 17 + salt) % 64) / 1099511627776
+
 def parseSimSpec (s : String) : Option (Nat → Nat → Float32) :=
   match s.toList with
+  | 'w' :: rest => (String.ofList rest).toNat?.map fun salt => tableSimTiny false salt
+  | 'x' :: rest => (String.ofList rest).toNat?.map fun salt => tableSimTiny true salt
   | 'i' :: rest => (String.ofList rest).toNat?.map fun salt => tableSimNonFinite false salt
   | 'j' :: rest => (String.ofList rest).toNat?.map fun salt => tableSimNonFinite true salt
   | 'u' :: rest => (String.ofList rest).toNat?.map fun salt => tableSimCoarse false salt
@@ -142,6 +148,20 @@ def handleSim (s : DState) (toks : List String) : Option Out :=
         else match Combine.groupSimilarity cb sim ga gb with
           | .ok v => some (s, ["SS " ++ showScore v, "oracle ok"])
           | _ => some (die s)
+    | _, _, _, _ => none
+  | ["setsim2", slotA, slotB, spec, cb, a, b] =>
+    -- the two sets belong to two ontology OBJECTS (slot A / slot B); every member is resolved in its own
+    match parseSimSpec spec, parseCombiner cb, parseIds a, parseIds b with
+    | some sim, some cb, some a, some b =>
+      match slotA.toNat?.bind s.slot, slotB.toNat?.bind s.slot with
+      | some oa, some ob =>
+        let ga := Group.ofList a
+        let gb := Group.ofList b
+        if (oa.resolve ga).isNone || (ob.resolve gb).isNone then some (die s)
+        else match Combine.groupSimilarity cb sim ga gb with
+          | .ok v => some (s, ["SS " ++ showScore v])
+          | _ => some (die s)
+      | _, _ => some (s, ["noslot"])
     | _, _, _, _ => none
   | ["matsim1", cb, ks] =>
     -- one-row matrix: closed form `Combine.calculateOneRow` (= `calculate`, HpoProofs/CombineFast.lean)
